@@ -7,8 +7,8 @@ Oracle: jsonschema: valid(S,d) => add Ok, realised value ~= d (up to nested defa
 not valid(S,d) => add returns Err (not Ok, not a panic, not uncompilable code, not a different value)."""
 import json
 
-from .. import oracle, wire
-from ..common import MachineryError, key_of
+from .. import oracle, universe, wire
+from ..common import MachineryError, canon, key_of
 from ..runner import Result, Violation
 from .C03 import _deq
 
@@ -106,17 +106,37 @@ def cases(tier, seed):
     kinds = QUICK_KINDS if tier == "quick" else list(KINDS)
     for k in kinds:
         schema, good, bad, native = KINDS[k]
-        cands = [(d, True) for d in good] + [(d, False) for d in bad]
+        cands = [(d, True, "hand") for d in good] + [(d, False, "hand") for d in bad]
         if tier == "quick":
             cands = cands[:2] + [c for c in cands if not c[1]][:2]
             cands = [c for i, c in enumerate(cands) if c not in cands[:i]]
-        for d, valid in cands:
-            for pos in (("member",) if tier == "quick" else ("member", "definition", "named_type")):
-                for builder in ((True,) if tier == "quick" else (False, True)):
+        # candidates derived from the kind's instance universe (valid and invalid by the oracle), beyond the hand-listed ones
+        seen_c = {canon(d) for d, _, _ in cands} | {canon(d) for d in good + bad}
+        orc = oracle.Oracle({"allOf": [schema], "definitions": DEFS})
+        uni, _ = universe.universe({"definitions": dict(DEFS, K__=schema)}, "K__", depth=2, limit=80)
+        nv = ni = 0
+        cap = 2 if tier == "quick" else 12
+        for v, flags in uni:
+            if canon(v) in seen_c:
+                continue
+            ok = orc.valid(v)
+            if native and not ok:
+                continue   # native types: invalid defaults are not demanded to fail
+            if ok and nv < cap:
+                nv += 1
+            elif not ok and ni < cap:
+                ni += 1
+            else:
+                continue
+            seen_c.add(canon(v))
+            cands.append((v, ok, "universe+zz" if "zz" in flags else "universe"))
+        for d, valid, src in cands:
+            for pos in (("member",) if tier == "quick" else (("member", "definition", "named_type") if src == "hand" else ("member", "definition"))):
+                for builder in ((True,) if (tier == "quick" or src != "hand") else (False, True)):
                     sd = with_default(schema, d)
                     defs = dict(DEFS)
                     settings = {"struct_builder": builder}
-                    c = {"kind": k, "default": d, "valid": valid, "pos": pos, "builder": builder, "settings": settings, "member_schema": schema}
+                    c = {"kind": k, "default": d, "valid": valid, "pos": pos, "builder": builder, "settings": settings, "member_schema": schema, "src": src}
                     if pos == "member":
                         defs["Holder"] = {"type": "object", "properties": {"p": sd, "q": INT}}
                         c["doc"] = {"definitions": defs}
@@ -172,7 +192,7 @@ def execute(cases_, tier, seed):
         res.states += 1
         res.transitions += 1
         res.nontrivial += 1
-        feats = {"kind": c["kind"], "pos": c["pos"], "builder": c["builder"], "valid": c["valid"], "default": json.dumps(c["default"])}
+        feats = {"kind": c["kind"], "pos": c["pos"], "builder": c["builder"], "valid": c["valid"], "default": json.dumps(c["default"]), "src": c.get("src")}
         ops = (wc.answer or {}).get("ops") or []
         bad_op = next((o for o in ops if o.get("status") in ("err", "panic")), None)
         aborted = (wc.answer or {}).get("abort")
@@ -189,12 +209,15 @@ def execute(cases_, tier, seed):
                     continue
                 detail = (wc.render or {}).get("msg") if outcome == "render-panic" else (wc.errors[:2] if outcome == "uncompilable" else (bad_op or {}).get("msg"))
                 res.violations.append(Violation(c["key"], "invalid-default:" + outcome, "%s: default %s is not valid for its schema but add gives %s" % (c["id"], json.dumps(c["default"]), outcome),
-                                                c, expected="Err when the schema is added", observed={"outcome": outcome, "detail": detail}, features=feats))
+                                                c, expected="Err when the schema is added", observed={"outcome": outcome, "detail": detail}, features=feats, items=[c["default"]]))
             continue
+        if outcome == "err" and c.get("src") == "universe+zz":
+            hist[("unrepresentable", "err")] = hist.get(("unrepresentable", "err"), 0) + 1
+            continue   # a default carrying undeclared members cannot be reproduced exactly by the struct: rejecting it is the other allowed outcome
         if outcome != "ok":
             detail = (wc.render or {}).get("msg") if outcome == "render-panic" else (wc.errors[:2] if outcome == "uncompilable" else (bad_op or {}).get("msg"))
             res.violations.append(Violation(c["key"], "valid-default:" + outcome, "%s: valid default %s: %s (%s)" % (c["id"], json.dumps(c["default"]), outcome, str(detail)[:140]),
-                                            c, expected="Ok and reproduced", observed={"outcome": outcome, "detail": detail}, features=feats))
+                                            c, expected="Ok and reproduced", observed={"outcome": outcome, "detail": detail}, features=feats, items=[c["default"]]))
             continue
         # realised values
         orc = oracle.Oracle({"allOf": [c["member_schema"]], "definitions": DEFS})
@@ -203,7 +226,7 @@ def execute(cases_, tier, seed):
             n_real += 1
             if not (r or {}).get("ok"):
                 res.violations.append(Violation(c["key"], "default-route-fails:" + route, "%s: %s fails: %s" % (c["id"], route, r), c, expected=c["default"], observed=r,
-                                                features=dict(feats, route=route)))
+                                                features=dict(feats, route=route), items=[c["default"]]))
                 continue
             w = r["w"]
             if route in ("serde", "builder", "struct_default"):
@@ -223,7 +246,7 @@ def execute(cases_, tier, seed):
                     ok = False
             if not ok:
                 res.violations.append(Violation(c["key"], "default-mismatch:" + route, "%s: %s realises %s, schema default is %s" % (c["id"], route, json.dumps(real_show), json.dumps(d)),
-                                                c, expected=d, observed=real_show, features=dict(feats, route=route)))
+                                                c, expected=d, observed=real_show, features=dict(feats, route=route), items=[c["default"]]))
     res.evaluations = res.transitions
     res.extra.update({"outcome_histogram": {"valid=%s,%s" % k: v for k, v in hist.items()}, "realised_defaults_checked": n_real})
     res.samples = [{"id": c["id"], "member_schema": c["member_schema"], "default": c["default"]} for c in cases_[:: max(1, len(cases_) // 5)]][:5]
